@@ -12,7 +12,7 @@ REQUIRED_MONITORS = ["explicit-order@SSI_mpe", "explicit-order@pLSCF_mpe", "find
 ALL_STATES = ["order:int", "order:list", "mode missing at the order", "nearest pole belongs to another requested mode", "all found", "none found",
               "with covariances", "find_min: qualifying order exists", "find_min: two stable poles in one band at a lower order",
               "find_min: f>1Hz pole between absolute and relative band", "f<1Hz requests"]
-REQUIRED_STATES = ["successive mpe calls with different rtol", "order:int", "order:list", "mode missing at the order", "nearest pole belongs to another requested mode", "with covariances",
+REQUIRED_STATES = ["nearest pole in an rtol^2 sliver at a band edge", "two retained poles in the band, the farther one in an earlier row", "successive mpe calls with different rtol", "order:int", "order:list", "mode missing at the order", "nearest pole belongs to another requested mode", "with covariances",
                    "find_min: qualifying order exists", "find_min: two stable poles in one band at a lower order",
                    "find_min: f>1Hz pole between absolute and relative band"]
 RULE = ("structured pole tables (modes x orders, modes missing at some orders, spurious poles, NaN rows, per-column row shuffles) in which every "
@@ -172,6 +172,32 @@ def run_explicit(ctx, rng):
         orders = [o] * len(req)
         order_arg = o
     with_cov = rng.random() < 0.5
+    placed = rng.random()
+    if placed < 0.4:
+        # poles placed relative to the band of ONE request: in the thin slivers next to the band edges (the band is relative to the requested
+        # frequency, not to the pole: [f(1-rtol), f(1+rtol)] differs from [f/(1+rtol), f/(1-rtol)] by ~rtol^2), or two retained poles inside
+        # the band with the farther one stored in an earlier row
+        q = int(rng.integers(0, len(req)))
+        f, o = req[q], orders[q]
+        col = Fn[:, o]
+        if np.isfinite(col).any():
+            j = int(np.nanargmin(np.abs(col - f)))
+            if placed < 0.2:
+                u = float(rng.uniform(0.1, 0.9))
+                Fn[j, o] = f * (1 + rtol + u * rtol**2) if rng.random() < 0.5 else f * (1 - rtol + u * rtol**2)
+                ctx.state("nearest pole in an rtol^2 sliver at a band edge")
+            elif Fn.shape[0] >= 2:
+                i = int(rng.choice([r for r in range(Fn.shape[0]) if r != j]))
+                Fn[j, o] = f * (1 + 0.3 * rtol * rng.uniform(-1, 1))
+                Fn[i, o] = f * (1 + rng.choice([-1, 1]) * rtol * rng.uniform(0.5, 0.95))
+                Xi[i, o] = Xi[j, o] * 1.3 if np.isfinite(Xi[j, o]) else 0.01
+                Phi[i, o] = rng.standard_normal(Phi.shape[2]) + 1j * rng.standard_normal(Phi.shape[2])
+                for cv in covs:
+                    cv[i, o] = np.abs(cv[j, o]) * 1.7 if np.all(np.isfinite(cv[j, o])) else 1e-3
+                if i > j:
+                    for T in (Fn, Xi, Phi, Lab, owner) + tuple(covs):
+                        T[[i, j], o] = T[[j, i], o]
+                ctx.state("two retained poles in the band, the farther one in an earlier row")
     tabs = (Fn.copy(), Xi.copy(), Phi.copy())
     missing = any(not present[k, o] for k, o in zip(pick, orders))
     other = False
